@@ -11,11 +11,15 @@ ASSUMPTIONS = ["PARTIAL: that `status = Timeout` is set exactly on the terminate
 
 def run_p(seed, tier, replay=None):
     r = common.run_streams([("p_exec", [seed, 10])])
-    items = [([b, args, idx], req, impl) for (b, args, idx, req, impl) in r.cases if req.startswith("classify ")]
+    items = [([b, args, idx], req, impl) for (b, args, idx, req, impl) in r.cases if req.startswith(("classify ", "describe "))]
     mism, _ = common.compare(items, None)
     violations = []
     for m in mism:
         f = m["req"].split(" ")
+        if f[0] == "describe":
+            violations.append({"what": f"a test whose attempts ended {f[1]} is described as {m['impl']}, the property says {m['model']} (the last attempt decides; flaky = passed, possibly leaking, after earlier failed attempts)",
+                               "payload": {"stream": m["origin"][:2], "line_index": m["origin"][2], "attempts": f[1], "impl": m["impl"], "spec": m["model"], "request": m["req"]}, "kind": "describe"})
+            continue
         raw = int(f[1])
         what = f"exit code {(raw >> 8) & 255}" if raw & 127 == 0 else f"signal {raw & 127}{' (core dumped)' if raw & 128 else ''}"
         violations.append({"what": f"a process that ended with {what} (pipe error={f[2]}, leaked={f[3]}) is classified {m['impl']}, the property says {m['model']}",
@@ -23,13 +27,18 @@ def run_p(seed, tier, replay=None):
     samples = [f"{q}  =>  {i}" for (_, q, i) in items[::211]][:8]
     return {
         "evaluations": len(items), "distinct_nontrivial": len(set(q for _, q, _ in items)),
-        "rule": "exhaustive: every exit code 0-255 and every signal 1-64 with and without core dump, each x {pipe read error} x {leaked}: 1536 raw wait statuses through the real create_execution_result; all are distinct and all are non-trivial (each is a row of the property's table)",
+        "rule": "exhaustive: every sequence of 1-4 attempt results over {P, L, F, F+leak, signal, exec-fail, timeout} through the real ExecutionStatuses::describe; every exit code 0-255 and every signal 1-64 with and without core dump, each x {pipe read error} x {leaked}: 1536 raw wait statuses through the real create_execution_result; all are distinct and all are non-trivial (each is a row of the property's table)",
         "samples": samples, "traces": len(items), "dist": r.dist, "exhaustive": True,
         "violations": violations, "broken": r.broken, "impl_failures": r.impl_failures,
     }
 
 
 def run(seed, tier, replay=None):
-    return mix.merge(run_p(seed, tier, replay), mix.check([mix.mon_results], seed, tier))
+    from props import tim
+    r = mix.merge(run_p(seed, tier, replay), mix.check([mix.mon_results], seed, tier))
+    # timed-out attempts whatever the process then does (exits 0 on SIGTERM, ignores it, writes and exits): result Timeout
+    r = mix.merge(r, tim.run_family("slow", seed, tier, 4, 30, kinds=("result",)))
+    # a leaky pass whose pipes are still being watched when a fail-fast cancellation arrives
+    return mix.merge(r, tim.run_family("cancel", seed, tier, 6, 30, kinds=("result",)))
 
 KNOWN_MATCHERS = {}
